@@ -248,7 +248,7 @@ impl<'r> Gen<'r> {
                     self.item(name, Form::Word)
                 }
             }
-            Shape::Newtype(t) => self.item_for(name, t, depth, false),
+            Shape::Newtype(t) | Shape::Alias(t) => self.item_for(name, t, depth, false),
             Shape::Struct(fields) => {
                 if self.mistake(self.cfg.allow.bad_value, 6) {
                     let form = match self.rng.below(3) {
@@ -467,7 +467,7 @@ pub const META_RECEIVERS: [&str; 28] = [
 
 pub fn receiver_names(mode: &str) -> Vec<&'static str> {
     if mode == "map" {
-        vec!["MP", "F3"]
+        vec!["MP", "F3", "RHS", "RHS", "RHI", "RHP", "RHN", "RHH", "RHB", "RHU", "RBS", "RBI", "RBN"]
     } else {
         META_RECEIVERS.to_vec()
     }
